@@ -270,6 +270,33 @@ def stricter_variant(name, c, rng):
         d["ft"] = core.fr(max(F(0), ft - rng.choice([0, 1, 2, 60])))
         d["tol"] = core.fr(tol + g)
         return d
+    if name == "climatology_test":
+        # per member: the valid / fail span shrunk inside the old one, or a fail span given where there was none
+        # (a member without fail span fails nothing); which points a member applies to is left alone
+        changed = False
+        for m in d["cfg"]:
+            r = rng.random()
+            if m["fspan"] is None:
+                if r < 0.5:
+                    lo, hi = sorted(F(x) for x in m["vspan"])
+                    a, b = lo - rng.choice([0, 1, 3, 100]), hi + rng.choice([0, 1, 3, 100])
+                    if rng.random() < 0.3:
+                        a, b = F(rng.randint(-4, 6)), F(rng.randint(4, 12))       # any fail span is stricter than none
+                    m["fspan"] = [core.fr(a), core.fr(b)] if rng.random() < 0.7 else [core.fr(b), core.fr(a)]
+                    changed = True
+            elif r < 0.5:
+                lo, hi = sorted(F(x) for x in m["fspan"])
+                lo2, hi2 = lo + g, hi - g2
+                if lo2 <= hi2:
+                    m["fspan"] = [core.fr(lo2), core.fr(hi2)]
+                    changed = True
+            if rng.random() < 0.5:
+                lo, hi = sorted(F(x) for x in m["vspan"])
+                lo2, hi2 = lo + g2, hi - g
+                if lo2 <= hi2:
+                    m["vspan"] = [core.fr(lo2), core.fr(hi2)]
+                    changed = True
+        return d if changed else None
     if name == "attenuated_signal_test":
         # larger thresholds are stricter; multiply by 2 to stay far from the spread (generators keep
         # spreads away from thresholds, doubling may land near one: only move in exact grid steps >= 1)
@@ -510,7 +537,7 @@ def convert_time(t, carrier):
             secs = (ns // 10 ** 9).tolist()
             return (secs if carrier == "epoch_s_list" else np.array(secs, dtype="float64")), True
         # fractional epoch seconds, when a float holds them exactly (0.5 s, 0.25 s, ms below 2^53 ns ...)
-        fl = [int(v) / 1e9 for v in ns.tolist()]
+        fl = [float(F(int(v), 10 ** 9)) for v in ns.tolist()]      # (int / 1e9 would round the numerator first)
         if any(F(x) * 10 ** 9 != int(v) for x, v in zip(fl, ns.tolist())):
             return t, False
         return (fl if carrier == "epoch_s_list" else np.array(fl, dtype="float64")), True
@@ -718,6 +745,35 @@ def nd_layout_failures(name, ad, c):
                           "clause": f"a 2-D input in {layout} memory order does not get, element for element, the flags of the "
                                     "flattened series (in the input's shape)"})
     return n_eval, fails
+
+
+def nd_layout_block(name, ad, cases, tier, rng):
+    """a result block: nd_layout_failures on a sample of the even-length cases of one test"""
+    pool = [c for c in cases if (input_length(name, c) or 0) >= 4 and (input_length(name, c) or 1) % 2 == 0]
+    fails, n_eval = [], 0
+    for c in sample(pool, 40 if tier == "quick" else 400, rng):
+        n, f = nd_layout_failures(name, ad, c)
+        n_eval += n
+        fails += f
+    return {"evaluations": n_eval, "distinct_nontrivial": n_eval, "failures": fails, "errors": [], "samples": [],
+            "distribution": {f"two_dimensional_inputs_C_and_F_order_{name}": n_eval}}
+
+
+def layout_block(ad, cases, tier, rng):
+    """simple_run block: 2-D inputs in C and Fortran memory order (a flag stays on ITS element)"""
+    if ad.name not in ND_TESTS:
+        return None
+    return nd_layout_block(ad.name, ad, [c for c in cases if ad.in_domain(c)], tier, rng)
+
+
+def reuse_block(ad, cases, tier, rng):
+    """simple_run block: the same calls once with fresh arrays and once, consecutively, with the caller's buffers
+    reused in place (a result must depend on the values passed in, not on the identity of the objects)"""
+    dom = [c for c in cases if ad.in_domain(c) and (input_length(ad.name, c) or 0) >= 2]
+    n, fails, reused = shared_buffer_history([(ad.name, ad, lambda tier, rng, dom=dom: dom)], tier, rng,
+                                             60 if tier == "quick" else 600)
+    return {"evaluations": n, "distinct_nontrivial": n, "failures": fails, "errors": [], "samples": [],
+            "distribution": {f"calls_with_reused_buffers_{ad.name}": reused}}
 
 
 # ------------------------------------------------------------------ shared driver pieces
